@@ -276,7 +276,7 @@ def C03_multi_denial_safe_Full : Prop :=
     * FALSE of the source as it is (finding C03-denied-probe-reads-as-reuse): ONE refused access inside the identity
       probe of is_running() (`Process(self.pid)`: `_init` swallows AccessDenied, `_ident = (pid, None)` ≠ the object's)
       makes ppid() / children() / parent() / parents() raise NoSuchProcess(pid) for a live, readable process.
-    * With the repair fixes/C03-denied-probe.diff (fact `runningProbe = "lenient"`): holds on every enumerated plan.
+    * With the repair the candidate fixes/C03-denied-probe-lenient.rejected.diff (not proposed: it conflicts with C05/C01, see notes/C03.md) (fact `runningProbe = "lenient"`): holds on every enumerated plan.
     * What is proved is BOUNDED (all four plan shapes with every index < 12 on the two-process world, < 16 on the
       three-process world for the walks; `decide +kernel`), plus the same predicate evaluated in Lean on the REAL
       code's outcome for every case of the correspondence. The unbounded statement for the repaired source is the
